@@ -1,6 +1,7 @@
 package rules
 
 import (
+	"go/types"
 	"strings"
 
 	"golang.org/x/tools/go/ssa"
@@ -24,6 +25,10 @@ func runC15(c *Check, tier string) {
 	ruleResolverTotal(c, "R15f")
 	// both modes restore through the same handlers
 	useFamily(c, "R15g", famRestore, 20)
+	ruleAliasChainsFollowed(c, "R15j", "dag", "analysis")
+	ruleRerunBypassesGate(c, "R15k")
+	shareRule(c, "R15h", "an executed dependency counts as materialised: the completion function sets Target.OutputsLoaded on every path to success, so minimal mode does not run it again where mode all would not (same obligation as R03h)", 1, "R03h", func(sub *Check) { ruleExecutedCountsAsLoaded(sub, "R03h") }, nil)
+	shareRule(c, "R15i", "no goroutine started inside a worker slot runs commands: the dependency re-runs of minimal mode are sequential (same obligation as R03g)", 1, "R03g", func(sub *Check) { ruleNoSpawnInsideSlot(sub, "R03g") }, nil)
 }
 
 func modeAtom(c *Check, op string) func(a engine.Atom) bool {
@@ -370,4 +375,90 @@ func definitelyNonNilReturn(fn *ssa.Function, r *ssa.Return) bool {
 		}
 	}
 	return true
+}
+
+// ruleAliasChainsFollowed: an alias may point to another alias. A function that turns a node into the target it
+// stands for (returns *model.Target and reads Alias.Actual) has to keep resolving until it holds a target: the
+// read of Actual sits in a loop, or the function calls itself (or another resolver) on what it looked up.
+func ruleAliasChainsFollowed(c *Check, rule string, pkgs ...string) {
+	c.Rule(rule, "in "+strings.Join(pkgs, ", ")+": every function that resolves a node to the *model.Target it stands for (returns *model.Target and reads Alias.Actual) follows alias chains to their end — the read of Actual is inside a loop, or the function recurses on the looked-up node", 2)
+	actual := fk("model.Alias", "Actual")
+	isResolver := func(fn *ssa.Function) bool {
+		res := fn.Signature.Results()
+		if res.Len() == 0 || engine.TypeKey(res.At(0).Type()) != "model.Target" {
+			return false
+		}
+		if _, isPtr := res.At(0).Type().(*types.Pointer); !isPtr {
+			return false
+		}
+		return readsField(c, fn, actual)
+	}
+	for _, fn := range c.P.Funcs {
+		in := false
+		for _, p := range pkgs {
+			if engine.InPackage(fn, p) {
+				in = true
+			}
+		}
+		if !in || !isResolver(fn) {
+			continue
+		}
+		ok := true
+		var at ssa.Instruction
+		for _, b := range fn.Blocks {
+			for _, instr := range b.Instrs {
+				var hit bool
+				switch x := instr.(type) {
+				case *ssa.FieldAddr:
+					hit = engine.FieldKeyOf(x.X.Type(), x.Field) == actual
+				case *ssa.Field:
+					hit = engine.FieldKeyOf(x.X.Type(), x.Field) == actual
+				}
+				if !hit {
+					continue
+				}
+				if engine.InLoop(instr) {
+					continue
+				}
+				// recursion / delegation to another resolver after the read
+				rec, _ := engine.PathExists(fn, instr, func(i ssa.Instruction) bool {
+					call, isCall := i.(ssa.CallInstruction)
+					if !isCall {
+						return false
+					}
+					for _, cal := range c.G.CalleesOf(call) {
+						if cal == fn || (cal != nil && len(cal.Blocks) > 0 && isResolver(cal) && cal != fn) {
+							return true
+						}
+					}
+					return false
+				}, engine.PathQuery{Shallow: true})
+				if !rec {
+					ok, at = false, instr
+				}
+			}
+		}
+		pos := c.P.Pos(fn.Pos())
+		if at != nil {
+			pos = c.P.InstrPos(at)
+		}
+		c.Require(ok, rule, "alias-chain-followed/"+c.P.FuncName(fn), "the alias is resolved in a loop (or recursively) until a target is reached", "the alias is resolved for one hop only: a dependency declared through an alias of an alias resolves to nothing and is silently dropped — its outputs are not loaded in minimal mode, its digest is missing from the dependant's change hash, and the test/testonly rule does not see it", pos)
+	}
+}
+
+// R15k: a dependency whose outputs cannot be restored is executed, not asked again whether it is cached. The
+// gate answers "hit" from the target-result entry alone under load_outputs=minimal; the entry is still there
+// when the blobs are gone, so a re-run routed through the gate does nothing and the dependant runs without its
+// dependency's outputs.
+func ruleRerunBypassesGate(c *Check, rule string) {
+	c.Rule(rule, "the dependency loader reaches the executing method through a call chain that does not pass the cache-hit gate: a failed restore is answered by an execution", 1)
+	ldo := anchor(c, rule, "execution", "Executor", "LoadDependencyOutputs")
+	ex := findExec(c, rule)
+	gate := findGate(c, rule)
+	if ldo == nil || ex == nil || gate == nil {
+		return
+	}
+	top := engine.TopFunc(gate)
+	reach := c.G.ReachableFuncs([]*ssa.Function{ldo}, func(f *ssa.Function) bool { return f == gate || (f == top && f != ldo) })
+	c.Require(reach[ex.ExecMethod], rule, "rerun-bypasses-gate/"+c.P.FuncName(ldo), "the loader calls the executing method without going through the gate", "every route from the dependency loader to the executing method passes the cache-hit gate ("+c.P.FuncName(gate)+"): under load_outputs=minimal the gate reports a hit as long as the target-result entry exists, so a dependency whose blobs are gone is 're-run' without running and the dependant executes without its outputs (or fails where mode all succeeds)", c.P.Pos(ldo.Pos()))
 }
